@@ -466,6 +466,14 @@ def runLine (op : String) (impl : String) : Result :=
         else if impl.startsWith "err" then [s!"C12 fold-error-on-a-value-with-a-custom-folder {impl.take 200}"]
         else if impl == "panic" then ["C12 fold-panic-on-a-value-with-a-custom-folder", "C15 fold-panic-on-a-value-with-a-custom-folder"]
         else [] }
+  | "unf-names" :: args =>
+    -- struct targets whose exported field names start with non-ASCII upper-case letters (outside
+    -- the menagerie): every member named in the document is assigned; Fold then Unfold = value
+    { model := some "same",
+      fails :=
+        if impl == "same" then [] else
+        (if args.getD 1 "" == "fold" then [s!"C11 round-trip-changes-value non-ascii-field-names {impl.take 200}"] else []) ++
+        [s!"C13 unfold-misses-member-of-an-exported-field non-ascii-field-names {impl.take 200}"] }
   | "unf-user" :: _ => opUnfUser impl
   | "unf-userval" :: _ =>
     -- a record written by the harness' own writer, unfolded by an Unfolder configured with user
